@@ -126,6 +126,24 @@ def run(ctx):
                "every deduction re-queues the row that received it, on every path" if okq else
                "after a deduction the row that received the new entry is not always re-queued (conditional push): relators through the new entry that were scanned earlier from that row are never re-checked, inconsistent tables are listed", dt.span_of(jb))
     frm, to, gg = [("param", i, dt.debug.get(i, "")) for i in (3, 4, 5)]
+    # the closure starts at BOTH ends of the new edge: a row created by this definition (to == table.len()) has never been scanned, and a
+    # relator of length 1 yields a deduction there (row . c = row) that no scan from `from` can find; without it the partial table is not
+    # deduction-closed and the canonicity filter (which orders undefined after every row) rejects a table whose completion is canonical
+    seeds = set()
+    for bi, t in dt.calls():
+        n_ = t["callee"].get("def", "")
+        if (n_.endswith("From::from") or "VecDeque" in n_ and n_.endswith("::from")) and "VecDeque" in dt.local_ty(t["dest"]["l"]):
+            a0 = strip(norm(dt.origin(t["args"][0]), g))
+            if a0[0] == "agg":
+                seeds |= {strip(x) for x in a0[2]}
+    for bi, t in dt.calls("VecDeque::<T, A>::push_back"):
+        if loop_containing(dt, bi) is None and not any(bi in bl for h, bl in natural_loops(dt)):
+            seeds.add(strip(norm(dt.origin(t["args"][1]), g)))
+    okseed = frm in seeds and to in seeds
+    ctx.ob("T3-closure-seeded-at-both-ends", dt.name, "queue <- [from, to]", "ok" if okseed else "violation",
+           "relators are scanned from both rows of the new edge (a freshly created row included)" if okseed else
+           "the deduction queue starts with %s only: a row created by this definition is never scanned, so relators of length 1 are not applied to it; "
+           "the table handed to the canonicity filter is not deduction-closed and subgroup classes are lost (<a,b,c | [a,b], c> at index 4: 14 instead of 15)" % sorted(show(x, 1) for x in seeds))
     init = [t for bi, t in joins if [norm(dt.origin(x), g) for x in t["args"]][1:] == [frm, to, gg]]
     okinit = False
     for bi, t in joins:
